@@ -13,3 +13,5 @@ TECHNIQUE = "contract-based deductive verification (VCs from the ast of the real
 UNITS = [VIO.unit_reader_rows(), VIO.unit_validate_row(), VIO.unit_module_rows_validate(), FX.unit_fixed_rows(), RD.unit_delimited_rows(), M.unit_modes_sweep()]
 UNITS += [VIO.unit_reader_init(), VIO.unit_validate_rows()]
 UNITS += [RD.unit_as_delimited_keywords().also("C06")]
+from contracts import rowio_ods as OD, rowio_excel as XL
+UNITS += [VIO.unit_raw_rows().also("C06"), OD.unit_ods_rows().also("C06"), XL.unit_excel_rows().also("C06")]
